@@ -324,7 +324,15 @@ func runC04(c *core.Ctx) {
 			})
 			return found
 		}
-		c.Check(appendIn(tableArm), "R04.4", "table import records the importer", resolve.Pos(), "the importing instance is appended to the table's keep-alive list", "importing a table does not record the importer: references the importer stores in the table can outlive its code")
+		importRecords := false
+		if tableArm != nil {
+			for _, sn := range armScope(wp, tableArm) { // the arm, or the method it hands the linking to
+				if appendIn(sn) {
+					importRecords = true
+				}
+			}
+		}
+		c.Check(importRecords, "R04.4", "table import records the importer", resolve.Pos(), "the importing instance is appended to the table's keep-alive list", "importing a table does not record the importer: references the importer stores in the table can outlive its code")
 		inst := core.FuncDecl(wp, "Store", "instantiate")
 		ok := false
 		if inst != nil {
@@ -721,7 +729,7 @@ func checkRound2C04(c *core.Ctx) {
 			loopOwner := map[*ast.RangeStmt]*ast.FuncDecl{}
 			ast.Inspect(set.Body, func(x ast.Node) bool {
 				is, isIf := x.(*ast.IfStmt)
-				if !isIf || !strings.Contains(core.ExprStr(is.Cond), "ImportGlobalCount") {
+				if !isIf || !exprMentions(info, set.Body, is.Cond, "ImportGlobalCount") {
 					return true
 				}
 				for k, sn := range armScope(p, is.Body) {
@@ -825,7 +833,7 @@ func checkRound2C04(c *core.Ctx) {
 			var what string
 			ast.Inspect(fd.Body, func(x ast.Node) bool {
 				is, isIf := x.(*ast.IfStmt)
-				if !isIf || !strings.Contains(core.ExprStr(is.Cond), "ImportFunctionCount") {
+				if !isIf || !exprMentions(info, fd.Body, is.Cond, "ImportFunctionCount") {
 					return true
 				}
 				ast.Inspect(is.Body, func(y ast.Node) bool {
